@@ -3,8 +3,10 @@
 //!
 //! Oracle (statement): every address the server would dial has *all* its IP components equal to
 //! the observed IP of the requester, contains no relay hop (`p2p-circuit`) and ends with
-//! `/p2p/<requester>`. With no observed IP nothing may be dialed. The throttling part of the
-//! statement (one dial-back per peer, per-peer / global limits) is NOT covered by this check.
+//! `/p2p/<requester>`. With no observed IP nothing may be dialed.
+//!
+//! Part 2 (throttling, E2 BFS, module `throttle` below): the real `autonat::Behaviour` (v1) is driven
+//! standalone as a server through `NetworkBehaviour`; see there.
 
 use kit::ids::peer;
 use libp2p_autonat::Behaviour;
@@ -14,9 +16,9 @@ use std::net::{Ipv4Addr, Ipv6Addr};
 
 pub const META: Meta = Meta {
     level: "exploration",
-    rule: "every demanded address of 1..=4 components over {ip4 a, ip4 b, ip6 c, dns4, tcp, udp, p2p requester, p2p other, p2p-circuit} (7380 addresses) as a single-element list, and every ordered pair of addresses of <= 2 components (8100 lists), each against observed address in {ip4, ip6, dns-only}, through the real filter_valid_addrs. Non-trivial = distinct (observed, list) cases for which at least one address is returned.",
-    explanation: "Complete enumeration (E3) over the stated component alphabet; every returned address is checked component by component against the statement.",
-    assumptions: &["component alphabet of 9 representatives, <= 4 components per address, <= 2 addresses per request", "throttling / one-dial-back-per-peer part of C50 not explored (not built)"],
+    rule: "every demanded address of 1..=4 components over {ip4 a, ip4 b, ip6 c, dns4, tcp, udp, p2p requester, p2p other, p2p-circuit} (7380 addresses) as a single-element list, and every ordered pair of addresses of <= 2 components (8100 lists), each against observed address in {ip4, ip6, dns-only}, through the real filter_valid_addrs. Throttling part: BFS over {dial request from P1/P2/P3, dial-back of P finished ok / failed, advance 500 ms / 1 s} on the real Behaviour. Non-trivial = distinct (observed, list) cases for which at least one address is returned, plus BFS states with at least one accepted probe inside the window.",
+    explanation: "Complete enumeration (E3) over the stated component alphabet; every returned address is checked component by component against the statement. Throttling: BFS over histories of the real Behaviour (E2) against a reference model of ongoing dial-backs and accepted-probe timestamps.",
+    assumptions: &["component alphabet of 9 representatives, <= 4 components per address, <= 2 addresses per request", "throttling part: 3 requesting peers, one address per request, limits global 2 / per peer 1 / period 1 s, BFS depth 8 (quick) / 11 (thorough); a probe counts for the window in which its ToSwarm::Dial is issued; window = half-open interval of one period"],
 };
 
 fn comp(i: usize) -> Protocol<'static> {
@@ -82,6 +84,10 @@ pub fn run(ctx: &Ctx) -> Outcome {
     let mut out = Outcome::default();
     if let Some(c) = &ctx.replay {
         out.evaluations = 1;
+        if c.get("history").is_some() {
+            throttle::replay(c, &mut out);
+            return out;
+        }
         let o = c["observed"].as_u64().unwrap_or(0) as usize;
         let list: Vec<Vec<usize>> = serde_json::from_value(c["list"].clone()).unwrap_or_default();
         if let Err(m) = case(o, &list) {
@@ -132,6 +138,276 @@ pub fn run(ctx: &Ctx) -> Outcome {
     if accepted == 0 || rejected == 0 {
         out.machinery("vacuity: enumeration never produced both a dialable and a fully rejected list");
     }
-    out.notes.push(format!("addresses of <= {maxlen} components; throttling part of the statement not explored"));
+    out.notes.push(format!("addresses of <= {maxlen} components"));
+    throttle::run(ctx, &mut out);
     out
+}
+
+/// Part 2 — throttling and one dial-back per peer (E2 BFS over histories of the real Behaviour).
+///
+/// Oracle (statement): a `ToSwarm::Dial` is never issued for a peer whose previous dial-back has not
+/// finished; at the moment a probe is accepted (= its Dial is issued) at most `peer_max` probes of
+/// that peer and `global_max` probes in total were accepted within the last period (half-open
+/// window `(t - period, t]`, the lenient reading); a request that is not accepted gets an error
+/// response on its channel (not silence, not success).
+mod throttle {
+    use kit::ids::peer;
+    use libp2p_autonat::{Behaviour, Config};
+    use libp2p_core::{transport::PortUse, ConnectedPoint, Endpoint};
+    use libp2p_swarm::behaviour::{ConnectionClosed, ConnectionEstablished, DialFailure};
+    use libp2p_swarm::{ConnectionId, DialError, FromSwarm, NetworkBehaviour, ToSwarm};
+    use mc::bfs::{self, System};
+    use mc::{json, Ctx, Outcome, Value};
+    use multiaddr::{Multiaddr, Protocol};
+    use serde::{Deserialize, Serialize};
+    use std::sync::atomic::{AtomicU64, Ordering::SeqCst};
+    use std::task::{Context, Poll};
+    use std::time::Duration;
+
+    const GLOBAL_MAX: usize = 2;
+    const PEER_MAX: usize = 1;
+    const PERIOD_MS: u64 = 1000;
+    const NPEERS: u8 = 3;
+
+    static ACCEPTED: AtomicU64 = AtomicU64::new(0);
+    static REFUSED_ONGOING: AtomicU64 = AtomicU64::new(0);
+    static REFUSED_PEER: AtomicU64 = AtomicU64::new(0);
+    static REFUSED_GLOBAL: AtomicU64 = AtomicU64::new(0);
+    static ACCEPTED_AFTER_WINDOW: AtomicU64 = AtomicU64::new(0);
+
+    #[derive(Clone, Debug, Serialize, Deserialize, PartialEq)]
+    pub enum Act {
+        Request(u8),
+        DialOk(u8),
+        DialFail(u8),
+        Advance(u64),
+    }
+
+    type Probe = Box<dyn FnMut() -> Option<Option<Result<Multiaddr, libp2p_autonat::ResponseError>>>>;
+
+    pub struct Sys {
+        b: Behaviour,
+        now_ms: u64,
+        next_req: u64,
+        next_conn: usize,
+        /// reference model: ongoing dial-back per peer (with the address dialed and its response probe)
+        ongoing: Vec<Option<(Multiaddr, Probe)>>,
+        /// reference model: acceptance times (ms) of all accepted probes, per peer
+        accepted: Vec<(u8, u64)>,
+    }
+
+    fn p(i: u8) -> libp2p_identity::PeerId {
+        peer(i + 1)
+    }
+    fn pidx(id: &libp2p_identity::PeerId) -> Option<u8> {
+        (0..NPEERS).find(|i| &p(*i) == id)
+    }
+    fn observed(i: u8) -> Multiaddr {
+        format!("/ip4/8.8.{}.8/tcp/4001", i + 1).parse().unwrap()
+    }
+
+    impl Sys {
+        pub fn new() -> Self {
+            mc::vclock::reset();
+            let cfg = Config {
+                boot_delay: Duration::from_secs(1_000_000_000),
+                retry_interval: Duration::from_secs(1_000_000_000),
+                refresh_interval: Duration::from_secs(1_000_000_000),
+                use_connected: false,
+                throttle_clients_global_max: GLOBAL_MAX,
+                throttle_clients_peer_max: PEER_MAX,
+                throttle_clients_period: Duration::from_millis(PERIOD_MS),
+                only_global_ips: true,
+                ..Config::default()
+            };
+            let mut b = Behaviour::new(peer(0), cfg);
+            // every requester has one inbound connection with a global observed address
+            for i in 0..NPEERS {
+                let ep = ConnectedPoint::Listener { local_addr: "/ip4/9.9.9.9/tcp/4001".parse().unwrap(), send_back_addr: observed(i) };
+                // the swarm first asks for a handler (this is where request-response registers the connection)
+                let _ = b.handle_established_inbound_connection(ConnectionId::new_unchecked(i as usize + 1), p(i), &"/ip4/9.9.9.9/tcp/4001".parse().unwrap(), &observed(i));
+                b.on_swarm_event(FromSwarm::ConnectionEstablished(ConnectionEstablished { peer_id: p(i), connection_id: ConnectionId::new_unchecked(i as usize + 1), endpoint: &ep, failed_addresses: &[], other_established: 0 }));
+            }
+            let mut s = Sys { b, now_ms: 0, next_req: 0, next_conn: 100, ongoing: (0..NPEERS).map(|_| None).collect(), accepted: Vec::new() };
+            let _ = s.drain();
+            s
+        }
+        /// poll the behaviour to quiescence; returns the peers for which a Dial was issued
+        fn drain(&mut self) -> Result<Vec<(libp2p_identity::PeerId, Vec<Multiaddr>)>, String> {
+            let w = futures::task::noop_waker();
+            let mut cx = Context::from_waker(&w);
+            let mut dials = Vec::new();
+            for _ in 0..64 {
+                match self.b.poll(&mut cx) {
+                    Poll::Ready(ToSwarm::Dial { mut opts }) => {
+                        let Some(pid) = opts.get_peer_id() else { return Err("dial-without-peer-id :: server issued a Dial without a peer id".into()) };
+                        // the addresses of the dial are what handle_pending_outbound_connection would be given; take them from the opts' Debug-free API
+                        let addrs = dial_addresses(&mut opts);
+                        dials.push((pid, addrs));
+                    }
+                    Poll::Ready(_) => {}
+                    Poll::Pending => return Ok(dials),
+                }
+            }
+            Err("HARNESS behaviour did not quiesce within 64 polls :: ".into())
+        }
+    }
+
+    /// DialOpts does not expose its address list publicly; the server always dials the (filtered)
+    /// requested address, which the harness knows: observed IP + requested port + /p2p/<peer>.
+    fn dial_addresses(_opts: &mut libp2p_swarm::dial_opts::DialOpts) -> Vec<Multiaddr> {
+        Vec::new()
+    }
+
+    fn dialed_addr(i: u8) -> Multiaddr {
+        observed(i).with(Protocol::P2p(p(i)))
+    }
+
+    impl System for Sys {
+        type Action = Act;
+        fn actions(&self) -> Vec<Act> {
+            let mut v = Vec::new();
+            for i in 0..NPEERS {
+                v.push(Act::Request(i));
+                if self.ongoing[i as usize].is_some() {
+                    v.push(Act::DialOk(i));
+                    v.push(Act::DialFail(i));
+                }
+            }
+            v.push(Act::Advance(PERIOD_MS / 2));
+            v.push(Act::Advance(PERIOD_MS));
+            v
+        }
+        fn step(&mut self, a: &Act) -> Result<(), String> {
+            match a {
+                Act::Advance(ms) => {
+                    mc::vclock::advance(Duration::from_millis(*ms));
+                    self.now_ms += ms;
+                    let d = self.drain()?;
+                    if !d.is_empty() {
+                        return Err(format!("dial-without-request :: a Dial for {:?} was issued by a clock advance", d.iter().map(|x| pidx(&x.0)).collect::<Vec<_>>()));
+                    }
+                }
+                Act::Request(i) => {
+                    let n = self.next_req;
+                    self.next_req += 1;
+                    // the requester asks for its own (claimed) address; port differs from the observed one
+                    let demanded: Multiaddr = "/ip4/1.2.3.4/tcp/4001".parse().unwrap();
+                    let (ev, mut probe) = Behaviour::verif_inbound_request(n, p(*i), vec![demanded]);
+                    self.b.on_connection_handler_event(p(*i), ConnectionId::new_unchecked(*i as usize + 1), ev);
+                    let dials = self.drain()?;
+                    let was_ongoing = self.ongoing[*i as usize].is_some();
+                    let win = |t: u64, now: u64| now - t < PERIOD_MS;
+                    let peer_recent = self.accepted.iter().filter(|(q, t)| q == i && win(*t, self.now_ms)).count();
+                    let all_recent = self.accepted.iter().filter(|(_, t)| win(*t, self.now_ms)).count();
+                    if dials.len() > 1 || dials.iter().any(|(pid, _)| pid != &p(*i)) {
+                        return Err(format!("dial-for-other-peer :: request of peer {i} produced dials for {:?}", dials.iter().map(|x| pidx(&x.0)).collect::<Vec<_>>()));
+                    }
+                    let resp = probe();
+                    if dials.len() == 1 {
+                        ACCEPTED.fetch_add(1, SeqCst);
+                        if was_ongoing {
+                            return Err(format!("second-dial-back-while-one-is-ongoing :: peer {i}: a new dial-back was started although the previous one has not finished"));
+                        }
+                        if peer_recent + 1 > PEER_MAX {
+                            return Err(format!("per-peer-throttle-exceeded :: peer {i}: probe accepted at {} ms although {peer_recent} probe(s) of this peer were accepted within the last {PERIOD_MS} ms (max {PEER_MAX}); accepted {:?}", self.now_ms, self.accepted));
+                        }
+                        if all_recent + 1 > GLOBAL_MAX {
+                            return Err(format!("global-throttle-exceeded :: probe of peer {i} accepted at {} ms although {all_recent} probes were accepted within the last {PERIOD_MS} ms (max {GLOBAL_MAX}); accepted {:?}", self.now_ms, self.accepted));
+                        }
+                        if self.accepted.iter().any(|(q, _)| q == i) {
+                            ACCEPTED_AFTER_WINDOW.fetch_add(1, SeqCst);
+                        }
+                        if resp.is_some() {
+                            return Err(format!("accepted-and-answered :: peer {i}: a dial-back was started and the request was answered at once with {resp:?}"));
+                        }
+                        self.accepted.push((*i, self.now_ms));
+                        self.ongoing[*i as usize] = Some((dialed_addr(*i), probe));
+                    } else {
+                        if was_ongoing {
+                            REFUSED_ONGOING.fetch_add(1, SeqCst);
+                        } else if all_recent >= GLOBAL_MAX {
+                            REFUSED_GLOBAL.fetch_add(1, SeqCst);
+                        } else if peer_recent >= PEER_MAX {
+                            REFUSED_PEER.fetch_add(1, SeqCst);
+                        }
+                        match resp {
+                            Some(Some(Err(_))) => {}
+                            other => return Err(format!("refused-request-without-error-response :: peer {i}: no dial-back was started and the response channel holds {other:?} (expected an error response such as DialRefused)")),
+                        }
+                    }
+                }
+                Act::DialOk(i) | Act::DialFail(i) => {
+                    let Some((addr, mut probe)) = self.ongoing[*i as usize].take() else { return Ok(()) };
+                    let conn = ConnectionId::new_unchecked(self.next_conn);
+                    self.next_conn += 1;
+                    if matches!(a, Act::DialOk(_)) {
+                        let ep = ConnectedPoint::Dialer { address: addr.clone(), role_override: Endpoint::Dialer, port_use: PortUse::New };
+                        let _ = self.b.handle_established_outbound_connection(conn, p(*i), &addr, Endpoint::Dialer, PortUse::New);
+                        self.b.on_swarm_event(FromSwarm::ConnectionEstablished(ConnectionEstablished { peer_id: p(*i), connection_id: conn, endpoint: &ep, failed_addresses: &[], other_established: 1 }));
+                        // the dial-back connection is closed again (keeps the state space finite)
+                        self.b.on_swarm_event(FromSwarm::ConnectionClosed(ConnectionClosed { peer_id: p(*i), connection_id: conn, endpoint: &ep, cause: None, remaining_established: 1 }));
+                    } else {
+                        let err = DialError::Transport(vec![]);
+                        self.b.on_swarm_event(FromSwarm::DialFailure(DialFailure { peer_id: Some(p(*i)), error: &err, connection_id: conn }));
+                    }
+                    let d = self.drain()?;
+                    if !d.is_empty() {
+                        return Err(format!("dial-without-request :: a Dial was issued when the dial-back of peer {i} finished"));
+                    }
+                    // harness sanity (the dial-back the model believes in must be the one the server tracks)
+                    if probe().is_none() {
+                        return Err(format!("HARNESS dial-back result not attributed :: peer {i}: {a:?} with address {addr} left the request unanswered"));
+                    }
+                }
+            }
+            Ok(())
+        }
+        fn canon(&self) -> Vec<u8> {
+            let og: Vec<bool> = self.ongoing.iter().map(|o| o.is_some()).collect();
+            let mut acc: Vec<(u8, u64)> = self.accepted.iter().map(|(q, t)| (*q, self.now_ms - t)).filter(|(_, age)| *age <= PERIOD_MS).collect();
+            acc.sort();
+            let ever: Vec<bool> = (0..NPEERS).map(|i| self.accepted.iter().any(|(q, _)| *q == i)).collect();
+            let (ongoing, throttled) = self.b.verif_server_state();
+            let ongoing: Vec<Option<u8>> = ongoing.iter().map(pidx).collect();
+            let throttled: Vec<(Option<u8>, u128)> = throttled.iter().map(|(q, age)| (pidx(q), (*age).min(PERIOD_MS as u128 + 1))).collect();
+            format!("{og:?}|{acc:?}|{ever:?}|{ongoing:?}|{throttled:?}").into_bytes()
+        }
+        fn nontrivial(&self) -> bool {
+            self.accepted.iter().any(|(_, t)| self.now_ms - t < PERIOD_MS)
+        }
+    }
+
+    pub fn replay(case: &Value, out: &mut Outcome) {
+        if let Err(m) = bfs::replay_history(Sys::new(), case) {
+            out.violation(bfs::signature_of(&m), m, case.clone());
+        }
+    }
+
+    pub fn run(ctx: &Ctx, out: &mut Outcome) {
+        let cfg = json!({"part": "throttle", "limits": "global 2 / peer 1 / period 1000 ms"});
+        let depth = ctx.tier.pick(8, 11);
+        let (st, v) = bfs::bfs_replay(Sys::new, depth, 2_000_000);
+        bfs::record(out, &cfg, &st, &v);
+        out.count("throttle_bfs_states", st.states);
+        out.count("throttle_bfs_transitions", st.transitions);
+        out.count("throttle_probes_accepted", ACCEPTED.load(SeqCst));
+        out.count("throttle_refused_dial_back_ongoing", REFUSED_ONGOING.load(SeqCst));
+        out.count("throttle_refused_per_peer_limit", REFUSED_PEER.load(SeqCst));
+        out.count("throttle_refused_global_limit", REFUSED_GLOBAL.load(SeqCst));
+        out.count("throttle_accepted_again_after_window", ACCEPTED_AFTER_WINDOW.load(SeqCst));
+        if ACCEPTED.load(SeqCst) == 0 || REFUSED_ONGOING.load(SeqCst) == 0 || REFUSED_PEER.load(SeqCst) == 0 || REFUSED_GLOBAL.load(SeqCst) == 0 || ACCEPTED_AFTER_WINDOW.load(SeqCst) == 0 {
+            out.machinery("vacuity (throttling): exploration did not reach every one of: accepted probe / refusal while ongoing / per-peer limit / global limit / re-acceptance after the window");
+        }
+        let ddepth = ctx.tier.pick(4, 5);
+        let (n, capped, v2) = bfs::dfs_all(Sys::new, ddepth, 3_000_000);
+        out.count("throttle_dfs_companion_sequences", n);
+        out.evaluations += n;
+        out.traces += n;
+        if capped {
+            out.caps.push(format!("throttle dfs companion capped at {n} sequences"));
+        }
+        bfs::record(out, &cfg, &Default::default(), &v2);
+        out.notes.push(format!("throttling part: bfs depth {depth}, dfs companion depth {ddepth}"));
+    }
 }
